@@ -33,6 +33,7 @@ def setup(ctx):
         "time is read through nauyaca.server.middleware.time.monotonic only (patched to the virtual clock)",
         "non-dyadic rates are compared with tolerance: decisions within 1e-9 tokens of the threshold are undecided",
     ]
+    ctx.require("monitor", "effect_probes", 50)
     ctx.require("monitor", "decisions", 20000)
     ctx.require("monitor", "refusals", 2000)
     ctx.require("monitor", "cleanup_ticks", 50)
@@ -332,9 +333,39 @@ def run_wired(ctx):
         shutil.rmtree(base, ignore_errors=True)
 
 
+def run_effect(ctx):
+    """Admissions counted where they matter: behind the limiter, the number of requests that reach a handler
+    (Gemini handler, Titan upload handler, Titan delete) never exceeds what the limiter admitted - a refused
+    request is answered 44 AND carried out by nobody."""
+    from nauyaca.server import middleware as M
+
+    from vf.sim import effect_probe
+
+    reqs = {"gemini": b"gemini://h/x\r\n", "titan-upload": b"titan://h/f.txt;size=3;mime=text/plain\r\nabc", "titan-delete": b"titan://h/f.txt;size=0\r\n"}
+    for cap in (1, 2, 5):
+        for kind, req in reqs.items():
+            for mix in (False, True):
+                seq = [req] * (cap + 4) if not mix else [reqs[k] for k in ("titan-upload", "gemini", "titan-delete", "titan-upload", "gemini", "titan-upload", "titan-delete", "gemini", "titan-upload")][: cap + 4]
+                rows = effect_probe(lambda: M.MiddlewareChain([M.RateLimiter(M.RateLimitConfig(capacity=cap, refill_rate=1 / 4096, retry_after=7))]),
+                                    [("10.7.0.1", 40000)], seq, settle=0.05)
+                carried = sum(r[3] + r[4] for r in rows)
+                admitted = sum(1 for r in rows if r[2] is not None and r[2] != 44)
+                ctx.count("monitor", "effect_probes", len(rows))
+                wit = {"capacity": cap, "requests": kind if not mix else "mixed", "statuses": [r[2] for r in rows], "handler_entries": [r[3] + r[4] for r in rows]}
+                if carried > cap:
+                    ctx.violation(f"over-admission:carried-out:request={kind if not mix else 'mixed'}", f"{carried} requests reached a handler in one burst, capacity is {cap}", wit)
+                elif any((r[2] == 44) and (r[3] or r[4]) for r in rows):
+                    ctx.violation("refused-but-carried-out", "a request answered 44 reached a handler", wit)
+                elif admitted != cap or carried != cap:
+                    ctx.violation("wrongly-refused:effect-probe", f"a burst of {len(rows)} on a full bucket of {cap}: {admitted} admitted, {carried} carried out", wit)
+                ctx.case(("effect", cap, kind, mix, carried), True, sample=wit)
+
+
 def run(ctx):
     if ctx.shard == 0:
         run_wired(ctx)
+    if ctx.shard == 1 or ctx.nshards == 1:
+        run_effect(ctx)
     rng = ctx.rng("c10")
     k = 0
     # ---- exhaustive small scope
